@@ -70,6 +70,7 @@ theorem ProcOK_frame {digest : Src → Nat} {d d' : Dir} {nt nt' : Nat} {src : S
       | some t => simp only [ProcOK] at h ⊢; exact ⟨Nat.lt_of_lt_of_le h.1 hnt, h.2⟩
   | pub t => simp only [ProcOK] at h ⊢; exact ⟨Nat.lt_of_lt_of_le h.1 hnt, by rw [hpriv t _ rfl]; exact h.2⟩
   | clean t => simp only [ProcOK] at h ⊢; exact ⟨Nat.lt_of_lt_of_le h.1 hnt, hfin _ _ h.2⟩
+  | pub1 t => simp [ProcOK] at h
   | imp2 => simp only [ProcOK] at h ⊢; exact hfin _ _ h
   | loaded s => simpa [ProcOK] using h
   | failed | crashed => simp [ProcOK] at h
@@ -156,6 +157,7 @@ theorem pstep_facts {digest : Src → Nat} (hinj : Function.Injective digest)
   | unborn | killed => exact facts_nowrite hfin hfresh hok rfl
   | loaded s => exact facts_nowrite hfin hfresh hok rfl
   | failed | crashed => simp [ProcOK] at hok
+  | pub1 t => simp [ProcOK] at hok
   | imp =>
       simp only [pstep]
       apply facts_nowrite hfin hfresh
@@ -503,6 +505,7 @@ theorem pstep_rank {digest : Src → Nat} {d : Dir} {nt : Nat} {src : Src} (cras
       | none => simp [ProcOK] at hok
       | some t => simp [pstep, rank, Active]
   | pub t | clean t => simp [pstep, rank, Active]
+  | pub1 t => simp [ProcOK] at hok
   | imp2 =>
       simp only [ProcOK] at hok
       simp [pstep, importStep, hok, rank, Active]
